@@ -492,6 +492,9 @@ func (w *World) execTxn(c *column.Collection, spec *TxnSpec, oracle bool, observ
 					}
 				}
 			case "delkey":
+				if len(o.Chain) > 0 {
+					applyChain(txn, m, o.Chain)
+				}
 				want, exists := m.keyOffset(o.Key)
 				err = txn.DeleteKey(o.Key)
 				if record {
